@@ -748,9 +748,14 @@ fn run_model(
     (mine, Some((out, ms)))
 }
 
-fn gen_unfiltered(g: &mut Gen, tweak: &dyn Fn(&mut Gen, &mut crate::mach::MachCfg)) -> SimCase {
+fn gen_unfiltered(
+    g: &mut Gen,
+    tier: Tier,
+    tweak: &dyn Fn(&mut Gen, &mut crate::mach::MachCfg),
+) -> SimCase {
     let n = *g.pick(&[5, 30, 100, 200]);
     let mut c = gen_sim_case(g, n, false, tweak);
+    maybe_deepen(g, tier, &mut c, tweak);
     c.args.max_trace_length = 0;
     if c.mc.is_empty() && c.ms.is_empty() {
         let mut cfg = sim_mach_cfg(g);
@@ -781,7 +786,7 @@ impl SimProp for C16 {
             real_components: SIM_REAL.to_vec(),
             stubbed_components: SIM_STUB.to_vec(),
             totality: false,
-            cpu_limit_s: crate::sup::CASE_CPU_LIMIT_S,
+            cpu_limit_s: 10,
             exhaustive: false,
         }
     }
@@ -791,8 +796,8 @@ impl SimProp for C16 {
             Tier::Thorough => 3_000_000,
         }
     }
-    fn generate(&self, g: &mut Gen, _tier: Tier) -> SimCase {
-        gen_unfiltered(g, &|g, mc| {
+    fn generate(&self, g: &mut Gen, tier: Tier) -> SimCase {
+        gen_unfiltered(g, tier, &|g, mc| {
             mc.action_w = [1, 1, 4, 6, 1];
             mc.times_us = vec![0.0, 1.0, 10.0, 100.0, 1000.0, 5000.0, 20000.0];
             mc.p_trans = *g.pick(&[0.3, 0.5, 0.7]);
@@ -833,7 +838,7 @@ impl SimProp for C17 {
             real_components: SIM_REAL.to_vec(),
             stubbed_components: SIM_STUB.to_vec(),
             totality: false,
-            cpu_limit_s: crate::sup::CASE_CPU_LIMIT_S,
+            cpu_limit_s: 10,
             exhaustive: false,
         }
     }
@@ -843,8 +848,8 @@ impl SimProp for C17 {
             Tier::Thorough => 3_000_000,
         }
     }
-    fn generate(&self, g: &mut Gen, _tier: Tier) -> SimCase {
-        gen_unfiltered(g, &|g, mc| {
+    fn generate(&self, g: &mut Gen, tier: Tier) -> SimCase {
+        gen_unfiltered(g, tier, &|g, mc| {
             mc.action_w = [1, 3, 5, 4, 1];
             mc.p_trans = *g.pick(&[0.3, 0.5, 0.8]);
         })
@@ -879,7 +884,7 @@ impl SimProp for C18 {
             real_components: SIM_REAL.to_vec(),
             stubbed_components: SIM_STUB.to_vec(),
             totality: false,
-            cpu_limit_s: crate::sup::CASE_CPU_LIMIT_S,
+            cpu_limit_s: 10,
             exhaustive: false,
         }
     }
@@ -889,8 +894,8 @@ impl SimProp for C18 {
             Tier::Thorough => 3_000_000,
         }
     }
-    fn generate(&self, g: &mut Gen, _tier: Tier) -> SimCase {
-        gen_unfiltered(g, &|g, mc| {
+    fn generate(&self, g: &mut Gen, tier: Tier) -> SimCase {
+        gen_unfiltered(g, tier, &|g, mc| {
             mc.action_w = [1, 3, 2, 1, 8];
             mc.p_trans = *g.pick(&[0.3, 0.5, 0.8]);
         })
